@@ -494,9 +494,18 @@ pub fn run(ctx: &Ctx) -> Report {
     levels.push(json!({"family": format!("F2-label-layout sequences of length <= {} over {} items (label-dependent #addr/#res/#align) x every pair of positions of the labels A <= B x {{default bank, a bank at address 0x10}}", maxlen_d, kd), "cases": n2d}));
     let maxlen_b = if ctx.thorough { 3 } else { 2 };
     let n2b = seq_count(k, maxlen_b);
-    rep.absorb(par_run(n2b, |i, l| {
-        let seq = seq_decode(i, k, maxlen_b);
-        judge_prog(&f2_prog(&seq, &items, true), "F2-banked", &opts, l);
+    rep.absorb(par_run(n2b * 2, |i, l| {
+        let seq = seq_decode(i / 2, k, maxlen_b);
+        let mut prog = f2_prog(&seq, &items, true);
+        if i % 2 == 1 {
+            // bank x at an odd address with label alignment: alignment is taken on the absolute BIT position
+            // (address x unit + offset), which differs from address + offset modulo the alignment
+            if let Item::Bankdef(b) = &mut prog.items[0] {
+                b.addr = Some(0x11);
+                b.labelalign = Some(16);
+            }
+        }
+        judge_prog(&prog, "F2-banked", &opts, l);
     }));
     levels.push(json!({"family": format!("F2 item sequences of length <= {} over {} items", maxlen, k), "cases": n2}));
     levels.push(json!({"family": format!("F2 two banks, sequences of length <= {}", maxlen_b), "cases": n2b}));
